@@ -39,3 +39,12 @@ impl fmt::Display for Group {
         write!(f, "({})", self.inner)
     }
 }
+
+#[cfg(vrl_verif)]
+impl Group {
+    /// verification hook: the grouped expression.
+    #[must_use]
+    pub fn verif_inner(&self) -> &Expr {
+        &self.inner
+    }
+}
